@@ -333,7 +333,12 @@ def _log_complete(w):
 @contract('bridge_env.network_bridge.server.Server.run', props=P + ['C20'])
 class _run:
     params = dict(self=RunServerShape)
-    raises = {BaseException: 'onlyif'}
+    # AssertionError (declared exactly: an assertion failure is never covered by a base class):
+    # the assertions after the admission loop restate what the seat threads guarantee (partners
+    # share a name, both sides are named) -- in this sequential model what other threads wrote to
+    # the shared seat table is arbitrary, so they can fail here; they are then an abort like any
+    # other (C13 clause below applies)
+    raises = {BaseException: 'onlyif', AssertionError: 'onlyif'}
     exc_havoc = True
     modifies = ['self']
     loops = {
